@@ -16,6 +16,16 @@ from statham.schema.validation.format import format_checker  # noqa: E402
 
 
 def make_pred(spec):
+    fn = _make_pred(spec)
+
+    def checker(value):
+        """Match ``[A-Z]{3}-[0-9]{4}`` or {name}."""
+        return fn(value)
+
+    return checker
+
+
+def _make_pred(spec):
     if spec[0] == "always":
         return lambda s: True
     if spec[0] == "never":
